@@ -553,3 +553,274 @@ def k4b(prog):
     if bad:
         findings.append({"key": key, "where": "dwgrep/" + f["l"], "msg": "; ".join(bad[:2]), "detail": bad})
     return inst, findings
+
+
+# ---------------------------------------------------------------------------
+# K8: main() of the driver interpreted end to end on abstract command lines
+
+def k8(prog, tier="quick"):
+    """main() of dwgrep interpreted from source on abstract command lines (getopt_long scripted; libzwerg's C API, the file opener, the
+    argument parsers and the value dumper summarised: a file opens or not, an argument expression yields 0-2 values, an execution
+    yields a planned sequence of result stacks and possibly raises an error before or after some of them, a value prints as its tag).
+    For every combination of the options -c -q -s -H -h, 0-2 files (openable or not), 0-2 -a / --a arguments, and five execution plans,
+    the exit status, everything written to stdout and the driver's own diagnostics on stderr are compared with the documented
+    behaviour: status 2 iff compile error or (without -q) a run-time error, else 0 iff some result; -q prints nothing and exits 0 at the
+    first result; unopenable files are reported (unless -s) and skipped, nothing openable -> 1; one execution per combination of
+    argument values in row-major order (files first, last argument fastest); header = the file and every multi-valued argument,
+    comma separated, `<no-file>` if none, printed iff (-H or several combinations) and not -h; -c prints the count per combination;
+    results in order, `---` before multi-value stacks; -s silences exactly the driver's messages."""
+    import itertools
+    from cxxobj import CxxEvaluator, Obj, Vec, Ptr, StdStr, OStream, Sym, OutOfBounds
+    from absint import Thrown
+    inst, findings = [], []
+    main = _main(prog)
+
+    class Val:
+        def __init__(self, name, pos=0):
+            self.name, self.pos = name, pos
+            self.addr = id(self)
+
+    class Query:
+        def __init__(self, text):
+            self.text = text
+            self.addr = id(self)
+
+    class Result:
+        def __init__(self, items):
+            self.items = list(items)
+            self.addr = id(self)
+
+    class Stack:
+        def __init__(self):
+            self.vals = []
+            self.addr = id(self)
+
+    def cstr(p):
+        if isinstance(p, Ptr):
+            return p.cstr()
+        if isinstance(p, StdStr):
+            return p.b.decode("latin-1")
+        return str(p)
+
+    def run(optlist, files, openable, arg_values, plan, query_ok, positional_query):
+        cout, cerr = OStream(), OStream()
+        rest = ([("Q" if query_ok else "BADQ")] if positional_query else []) + list(files)
+        perm = ["dwgrep"] + [x for o_, v in optlist for x in ([o_] if v is None else [o_, v])] + rest
+        argv_cells = [Ptr([ord(c) for c in s_] + [0], 0) for s_ in perm] + [None]
+        state = {"k": 0}
+
+        def getopt_long(ev, o, a):
+            if state["k"] >= len(optlist):
+                ev.globals["optind"] = len(perm) - len(rest)
+                return -1
+            o_, v = optlist[state["k"]]
+            state["k"] += 1
+            ev.globals["optarg"] = Ptr([ord(c) for c in v] + [0], 0) if v is not None else None
+            return ev.globals["longarg"] if o_ == "--a" else ord(o_[1])
+
+        def execute(ev, o, a):
+            combo = tuple(v.name for v in a[1].vals)
+            r = plan(combo)
+            if r and r[0] == "throw-at-execute":
+                raise Thrown("exec failed")
+            if r and r[0] == "throw-other-at-execute":
+                t_ = Thrown("not a std::exception")
+                t_.etype = "int"
+                raise t_
+            return Result(r)
+
+        def result_next(ev, o, a):
+            r = a[0]
+            if not r.items:
+                return None
+            x = r.items.pop(0)
+            if x == "throw":
+                raise Thrown("boom")
+            s_ = Stack()
+            s_.vals = [Val(n_) for n_ in x]
+            return s_
+
+        def dump_value(ev, o, a):
+            a[0].put(StdStr(("%s{%s}" % (a[1].name, a[2][1] if isinstance(a[2], tuple) else a[2])).encode()))
+            return None
+
+        def init_dwarf(ev, o, a):
+            fn = cstr(a[0])
+            if fn not in openable:
+                raise Thrown("cannot open")
+            return Val(fn, int(a[1]))
+
+        def parse_q(ev, o, a):
+            t = cstr(a[1])
+            if t.startswith("BAD"):
+                raise Thrown("syntax error")
+            return Query(t)
+        hooks = {
+            "setlocale": lambda ev, o, a: None, "textdomain": lambda ev, o, a: None,
+            "gen_options": lambda ev, o, a: Sym.of("long_options"), "gen_shopts": lambda ev, o, a: StdStr(b"opts"),
+            "getopt_long": getopt_long,
+            "zw_vocabulary_init": lambda ev, o, a: Obj("voc"), "zw_vocabulary_core": lambda ev, o, a: Obj("voc"),
+            "zw_vocabulary_dwarf": lambda ev, o, a: Obj("voc"), "zw_vocabulary_add": lambda ev, o, a: True,
+            "zw_query_parse_len": parse_q, "zw_query_parse": parse_q,
+            "zw_value_init_dwarf": init_dwarf,
+            "zw_stack_init": lambda ev, o, a: Stack(),
+            "zw_value_pos": lambda ev, o, a: a[0].pos,
+            "zw_value_clone": lambda ev, o, a: Val(a[0].name, int(a[1])),
+            "zw_stack_push_take": lambda ev, o, a: (a[0].vals.append(a[1]), True)[1],
+            "zw_stack_push": lambda ev, o, a: (a[0].vals.append(a[1]), True)[1],
+            "zw_query_execute": execute,
+            "zw_result_next": result_next,
+            "zw_stack_depth": lambda ev, o, a: len(a[0].vals),
+            "zw_stack_at": lambda ev, o, a: a[0].vals[int(a[1])] if 0 <= int(a[1]) < len(a[0].vals) else None,
+            "dumper::dump_value": dump_value,
+            "ctor:dumper": lambda ev, o, a: Obj("dumper"),
+            "ctor:zw_throw_on_error": lambda ev, o, a: Sym.of("throw_on_error"),
+            "(anonymous namespace)::parse_arg_literal": lambda ev, o, a: Vec([Val("lit:" + cstr(a[0]), 0)], "args"),
+            "(anonymous namespace)::parse_arg_eval": lambda ev, o, a: Vec([Val(n_, i) for i, n_ in enumerate(arg_values.get(cstr(a[1]), []))], "args"),
+            "show_help": lambda ev, o, a: None,
+            "method:get": lambda ev, o, a: o, "method:release": lambda ev, o, a: o,
+            "ctor:std::basic_ofstream<char, std::char_traits<char>>": lambda ev, o, a: OStream(),
+            "ctor:std::basic_ofstream<char>": lambda ev, o, a: OStream(),
+        }
+        ev = CxxEvaluator(hooks, {"std::cout": cout, "std::cerr": cerr, "optarg": None, "optind": 1,
+                                  "longarg": 1000, "help": 1001, "version": 1002}, prog=prog)
+        try:
+            rc = ev.call(main, None, [len(perm), Ptr(argv_cells, 0)])
+            if isinstance(rc, tuple) and rc and rc[0] == "enum":
+                rc = rc[2]                  # an enumerator returned from `int main`: its value
+            if isinstance(rc, bool):
+                rc = int(rc)
+        except Thrown as t:
+            rc = "an exception leaves main (%s)" % t
+        return rc, cout.text(), cerr.text()
+
+    def expected(flags, files, openable, extra, arg_values, plan, query_ok):
+        out, err = [], []
+        c, q, s_, H, h = (f in flags for f in "cqsHh")
+        if not query_ok:
+            return 2, "", None            # the text of a compile error is the library's
+        args = []
+        if files:
+            opened = []
+            for fn in files:
+                if fn in openable:
+                    opened.append(fn)
+                elif not s_:
+                    err.append("dwgrep: %s: cannot open\n" % fn)
+            if not opened:
+                return 1, "", "".join(err)
+            args.append(opened)
+        for kind, v in extra:
+            args.append(["lit:" + v] if kind == "-a" else list(arg_values.get(v, [])))
+        n = 1
+        for a in args:
+            n *= len(a)
+        if n == 0:
+            return 1, "", "".join(err)
+        with_header = (H or n > 1) and not h
+        errors = match = False
+        for combo in itertools.product(*args):
+            shown = [combo[i] for i in range(len(args)) if (i == 0 and files) or len(args[i]) > 1]
+            header = ",".join("%s{header}" % x for x in shown) if shown else "<no-file>"
+            r = plan(tuple(combo))
+            count = 0
+            failed = None
+            if r and r[0] == "throw-at-execute":
+                failed = "exec failed"
+            elif r and r[0] == "throw-other-at-execute":
+                failed = "Unknown error"
+            else:
+                for x in r:
+                    if x == "throw":
+                        failed = "boom"
+                        break
+                    if q:
+                        return 0, "", "".join(err)
+                    match = True
+                    if not c:
+                        if with_header:
+                            out.append(header + ":\n")
+                        if len(x) > 1:
+                            out.append("---\n")
+                        for v in x:
+                            out.append("%s{full}\n" % v)
+                    else:
+                        count += 1
+            if failed is not None:
+                if not s_:
+                    err.append("dwgrep: %s: %s\n" % (header, failed))
+                if not q:
+                    errors = True
+            elif c and not q:
+                out.append((header + ":" if with_header else "") + "%d\n" % count)
+        return (2 if errors else (0 if match else 1)), "".join(out), "".join(err)
+    flagsets = ["", "c", "q", "s", "H", "h", "cH", "ch", "qs", "sc", "Hh", "qc", "qcH"]
+    filesets = [([], set()), (["f1"], {"f1"}), (["f1", "f2"], {"f1", "f2"}), (["bad1", "f2"], {"f2"}), (["bad1"], set()), (["f1", "bad2", "f3"], {"f1", "f3"})]
+    arg_values = {"A0": [], "A1": ["a"], "A2": ["a1", "a2"], "B2": ["b1", "b2"]}
+    extras = [[], [("-a", "x")], [("--a", "A1")], [("--a", "A2")], [("--a", "A0")], [("-a", "x"), ("--a", "A2")], [("--a", "A2"), ("-a", "x")],
+              [("--a", "A2"), ("--a", "B2")], [("--a", "A1"), ("--a", "B2")]]
+
+    def mkplan(style):
+        def plan(combo):
+            k = sum(len(x) for x in combo) + len(combo) + (1 if any(x.endswith("2") for x in combo) else 0)
+            if style == "none":
+                return []
+            if style == "all":
+                return [["r@" + "+".join(combo)], ["s1", "s2"]]
+            if style == "some":
+                return [["r@" + "+".join(combo)]] if k % 2 == 0 else []
+            if style == "throw-late":
+                return ([["r1"], "throw", ["never"]] if k % 2 == 0 else [["ok@" + "+".join(combo)]])
+            if style == "throw-early":
+                return ["throw-at-execute"] if k % 2 == 1 else [["ok"]]
+            if style == "throw-other":
+                return ["throw-other-at-execute"] if k % 2 == 1 else [["ok"]]
+            raise AssertionError(style)
+        return plan
+    styles = ["none", "all", "some", "throw-late", "throw-early", "throw-other"]
+    if tier != "thorough":
+        filesets = [filesets[i] for i in (0, 1, 2, 3, 4)]
+        extras = [extras[i] for i in (0, 1, 3, 4, 5, 7)]
+    n = 0
+    bad = {}
+    try:
+        for flags in flagsets:
+            for files, openable in filesets:
+                for extra in extras:
+                    for style in styles:
+                        if "c" in flags and style.startswith("throw"):
+                            continue          # what -c prints for an input whose execution fails half-way is not documented
+                        for positional in (False, True):
+                            if positional and (flags or extra):
+                                continue
+                            optlist = [("-" + f, None) for f in flags] + list(extra) + ([] if positional else [("-e", "Q")])
+                            plan = mkplan(style)
+                            got = run(optlist, files, openable, arg_values, plan, True, positional)
+                            want = expected(flags, files, openable, extra, arg_values, plan, True)
+                            n += 1
+                            what = "dwgrep %s%s %s with executions that %s" % (
+                                " ".join(o_ if v is None else "%s %s" % (o_, v) for o_, v in optlist), " Q" if positional else "", " ".join(files),
+                                {"none": "yield nothing", "all": "each yield two stacks", "some": "yield a result for some combinations",
+                                 "throw-late": "raise an error after one result for some combinations", "throw-early": "fail to start for some combinations",
+                                 "throw-other": "raise something that is not a std::exception for some combinations"}[style])
+                            if got[0] != want[0]:
+                                bad.setdefault("status", "%s exits with %s; documented status is %s" % (what, got[0], want[0]))
+                            elif got[1] != want[1]:
+                                bad.setdefault("stdout", "%s writes to stdout %r; documented output is %r" % (what, got[1], want[1]))
+                            elif want[2] is not None and got[2] != want[2]:
+                                bad.setdefault("stderr", "%s writes the diagnostics %r; expected %r" % (what, got[2], want[2]))
+        # a query that does not compile: status 2, nothing on stdout
+        for flags in ("", "q", "c", "s"):
+            optlist = [("-" + f, None) for f in flags] + [("-e", "BADQ")]
+            got = run(optlist, ["f1"], {"f1"}, arg_values, mkplan("all"), False, False)
+            n += 1
+            if got[0] != 2 or got[1] != "":
+                bad.setdefault("status", "dwgrep %s -e <query that does not compile> f1 exits with %s and writes %r to stdout; documented: status 2, no output" % (
+                    " ".join("-" + f for f in flags), got[0], got[1]))
+    except OutOfBounds as x:
+        bad.setdefault("status", "main() reads or writes out of bounds: %s" % x)
+    for k in ("status", "stdout", "stderr"):
+        inst.append(("K8:" + k, {"command_lines": n}))
+        if k in bad:
+            findings.append({"key": "K8:" + k, "where": "dwgrep/" + main["l"], "msg": bad[k], "detail": None})
+    return inst, findings
